@@ -47,11 +47,26 @@ fn reencode_plutus_data(data: &PlutusData, e: &mut minicbor::Encoder<&mut Vec<u8
 }
 
 fn reencode_plutus_constr(constr: &Constr<PlutusData>, e: &mut minicbor::Encoder<&mut Vec<u8>>) {
-    e.tag(minicbor::data::Tag::new(constr.tag)).unwrap();
-    if constr.tag == 102 {
-        e.array(2).unwrap();
-        e.encode(constr.any_constructor.unwrap_or_default())
-            .unwrap();
+    // The constructor index decides the form, whichever form the value was decoded from:
+    // 0..=6 as tags 121..=127, 7..=127 as tags 1280..=1400, anything else as tag 102.
+    let index = match constr.tag {
+        102 => constr.any_constructor.unwrap_or_default(),
+        tag @ 121..=127 => tag - 121,
+        tag @ 1280..=1400 => tag - 1280 + 7,
+        tag => tag,
+    };
+    match index {
+        0..=6 => {
+            e.tag(minicbor::data::Tag::new(121 + index)).unwrap();
+        }
+        7..=127 => {
+            e.tag(minicbor::data::Tag::new(1280 + index - 7)).unwrap();
+        }
+        _ => {
+            e.tag(minicbor::data::Tag::new(102)).unwrap();
+            e.array(2).unwrap();
+            e.encode(index).unwrap();
+        }
     }
     reencode_plutus_array(&constr.fields, e);
 }
@@ -94,7 +109,10 @@ fn reencode_plutus_array(
 }
 
 fn reencode_plutus_bigint(i: &BigInt, e: &mut minicbor::Encoder<&mut Vec<u8>>) {
-    e.encode(i)
+    // An integer that fits 64 bits is a plain CBOR integer, a larger one a minimal bignum, even
+    // when the value was decoded from a bignum (or a padded bignum).
+    let canonical = machine::value::to_pallas_bigint(&machine::value::from_pallas_bigint(i));
+    e.encode(canonical)
         .expect("failed to encode BigInt in a bytes buffer?!");
 }
 
